@@ -63,7 +63,7 @@ class GapMat:
         pass
 
 
-def sym_core(env, r, tag=''):
+def sym_core(env, r, tag='', sym_wp=True):
     """Copy of r.core whose state is symbolic: gap temperatures, film coefficients, gap coolant
     properties, per-cell gap flows, and the conduction resistances (one symbol per adjacent pair:
     GAPGEOM symmetric, proved by C09).  Geometry tables (asm wp) stay the constructed floats: they
@@ -78,7 +78,7 @@ def sym_core(env, r, tag=''):
         for i, v in enumerate(vals):
             a[i] = v
         return a if obj else a.astype(float)
-    c.coolant_gap_temp = arr([env.real('%sTgap%d' % (t, i), lo=200, hi=3000) for i in range(n)])
+    c.coolant_gap_temp = arr([env.real('%sTgap%d' % (t, i), lo=200, hi=3000, nominal=650.0 + 3 * i) for i in range(n)])
     c.coolant_gap_params = dict(r.core.coolant_gap_params)
     c.coolant_gap_params['htc'] = arr([env.pos('%shtc_gap%d' % (t, i), hi=1e7, nominal=3e4 + 10 * i) for i in range(n)])
     c.gap_coolant = GapMat(heat_capacity=env.pos(t + 'cp_gap', hi=1e6, nominal=1275.0),
@@ -105,6 +105,22 @@ def sym_core(env, r, tag=''):
             L[i, j] = pair[key]
     c.gap_params = dict(r.core.gap_params)
     c.gap_params['L'] = L if obj else L.astype(float)
+    # contact lengths between duct cells and gap cells: symbolic (sums of concrete floats are rounded
+    # sums, which must not be mixed into exact identities); the convection constants are rebuilt from
+    # them by the real _make_conv_mask
+    aadj = r.core._asm_sc_adj
+    wp = np.full(aadj.shape, 0.0, dtype=object)
+    for a in range(aadj.shape[0]):
+        for i in range(aadj.shape[1]):
+            if aadj[a, i] > 0 and not sym_wp:
+                wp[a, i] = float(r.core.gap_params['asm wp'][a, i])
+            elif aadj[a, i] > 0:
+                wp[a, i] = env.pos('%swp_%d_%d' % (t, a, i), hi=10, actual=float(r.core.gap_params['asm wp'][a, i]))
+    c.gap_params['asm wp'] = wp if obj else wp.astype(float)
+    model = c.model
+    c.model = 'flow' if model is None else model
+    c._make_conv_mask()
+    c.model = model
     R = np.full(L.shape, 0.0, dtype=object)
     for i in range(n):
         for j in range(3):
